@@ -373,10 +373,18 @@ macro "mt_auto2" h:ident : tactic => `(tactic|
 
 namespace World
 
-theorem lazyGet_mt {w : World} {z : Nat} {r : World × Int} (h : w.lazyGet z = .ok r) :
+theorem lazyRead_mt {w : World} {sv : LazyVal} {r : World × Int} (h : w.lazyRead sv = .ok r) :
     r.1.exec.maxThreads = w.exec.maxThreads ∧ r.1.exec.path.cap = w.exec.path.cap := by
-  unfold lazyGet at h
+  unfold lazyRead at h
   mt_auto2 h
+
+theorem lazyInitFinish_mt {w : World} {z id : Nat} {r : World × Int} (h : w.lazyInitFinish z id = .ok r) :
+    r.1.exec.maxThreads = w.exec.maxThreads ∧ r.1.exec.path.cap = w.exec.path.cap := by
+  unfold lazyInitFinish at h
+  mt_split h
+  all_goals first
+    | (cases h; done)
+    | (have := lazyRead_mt h; simp_all; done)
 
 theorem wakerClone_mt {w w' : World} {a : Nat} (h : w.wakerClone a = .ok w') :
     w'.exec.maxThreads = w.exec.maxThreads ∧ w'.exec.path.cap = w.exec.path.cap := by
@@ -392,7 +400,8 @@ end World
 
 macro "mt_sat3" : tactic => `(tactic|
   (mt_sat2
-   try (have := World.lazyGet_mt ‹World.lazyGet _ _ = Except.ok _›)
+   try (have := World.lazyRead_mt ‹World.lazyRead _ _ = Except.ok _›)
+   try (have := World.lazyInitFinish_mt ‹World.lazyInitFinish _ _ _ = Except.ok _›)
    try (have := World.wakerClone_mt ‹World.wakerClone _ _ = Except.ok _›)
    try (have := World.wakerDrop_mt ‹World.wakerDrop _ _ = Except.ok _›)))
 
@@ -416,10 +425,32 @@ theorem wakeStage_mt {w w' : World} {c : TCtl} {f : Nat} {b : Bool}
   unfold wakeStage at h
   mt_auto3 h
 
+theorem lazyStage_mt {w w' : World} {c : TCtl} {z : Nat} (h : w.lazyStage c z = .ok w') :
+    w'.exec.maxThreads = w.exec.maxThreads ∧ w'.exec.path.cap = w.exec.path.cap := by
+  unfold lazyStage at h
+  mt_auto3 h
+
+theorem dropPass_mt {w w' : World} {c : TCtl} {base : Nat} {done : World → Except Panic World}
+    (hd : ∀ w w', done w = .ok w' →
+      w'.exec.maxThreads = w.exec.maxThreads ∧ w'.exec.path.cap = w.exec.path.cap)
+    (h : w.dropPass c base done = .ok w') :
+    w'.exec.maxThreads = w.exec.maxThreads ∧ w'.exec.path.cap = w.exec.path.cap := by
+  unfold dropPass at h
+  mt_split h
+  all_goals first
+    | (cases h; done)
+    | exact hd _ _ h
+    | (mt_sat3; (try cases h); simp_all; done)
+
 theorem finishThread_mt {w w' : World} {c : TCtl} (h : w.finishThread c = .ok w') :
     w'.exec.maxThreads = w.exec.maxThreads ∧ w'.exec.path.cap = w.exec.path.cap := by
   unfold finishThread at h
-  mt_auto3 h
+  split at h
+  · cases h
+  · refine dropPass_mt ?_ h
+    intro w1 w2 h2
+    have := threadDone_mt h2
+    simp_all
 
 end World
 
@@ -660,7 +691,7 @@ theorem runOp_tlsTry_mt {w w' : World} {c : TCtl} (m : Nat) (h : w.runOp c (Op.t
 theorem runOp_lazy_mt {w w' : World} {c : TCtl} (m : Nat) (h : w.runOp c (Op.lazy m) = .ok w') :
     w'.exec.maxThreads = w.exec.maxThreads ∧ w'.exec.path.cap = w.exec.path.cap := by
   simp only [runOp] at h
-  mt_auto3 h
+  exact lazyStage_mt h
 
 theorem runOp_tlsNest_mt {w w' : World} {c : TCtl} (k j : Nat) (h : w.runOp c (Op.tlsNest k j) = .ok w') :
     w'.exec.maxThreads = w.exec.maxThreads ∧ w'.exec.path.cap = w.exec.path.cap := by
@@ -805,6 +836,11 @@ theorem runEpilogue_mt {w w' : World} {c : TCtl} (h : w.runEpilogue c = .ok w') 
   all_goals first
     | (cases h; done)
     | exact finishThread_mt h
+    | (refine dropPass_mt ?_ h
+       intro w1 w2 h2
+       first
+         | (cases h2; exact ⟨rfl, rfl⟩)
+         | (have := branch_mt h2; simp_all; done))
     | (mt_sat2; (try cases h); simp_all; done)
 
 theorem stepActive_mt {w w' : World} (h : w.stepActive = .ok w') :
